@@ -437,3 +437,5 @@ func verifResultOwned(v any) bool { return true }
 
 func verifTraceLeaks(prefix string) int { return 0 }
 func verifTraceClass(class string)      {}
+
+func verifBigHexDigits() []byte { return nil }
